@@ -785,6 +785,10 @@ func (r *replayer) mutate(w *world, prf0 []byte, i, e int) ([]byte, bool) {
 	if e == 2 {
 		el = it.n - 1
 	}
+	if e == 3 {
+		prf[off+it.n*size-1] ^= 0x80
+		return prf, false
+	}
 	b := prf[off+el*size : off+(el+1)*size]
 	var nb []byte
 	if it.point {
